@@ -110,6 +110,7 @@ pub trait Serializer: Sized {
     type Error;
     type SerializeSeq;
     type SerializeStruct;
+    type SerializeMap;
     spec fn ok(&self) -> bool;
     #[verifier::external_body]
     fn serialize_str(self, value: &str) -> Result<Self::Ok, Self::Error> requires self.ok() { unimplemented!() }
@@ -125,6 +126,8 @@ pub trait Serializer: Sized {
     fn serialize_seq(self, len: Option<usize>) -> Result<Self::SerializeSeq, Self::Error> requires self.ok() { unimplemented!() }
     #[verifier::external_body]
     fn serialize_struct(self, name: &'static str, len: usize) -> Result<Self::SerializeStruct, Self::Error> requires self.ok() { unimplemented!() }
+    #[verifier::external_body]
+    fn serialize_map(self, len: Option<usize>) -> Result<Self::SerializeMap, Self::Error> requires self.ok() { unimplemented!() }
 }
 /// Models of serde::ser::SerializeSeq / SerializeTuple / SerializeTupleVariant. A type may implement several of these
 /// traits, whose methods have the same names; Verus cannot attach `ensures` to such an implementation, so each trait
@@ -158,6 +161,20 @@ pub trait SerializeStruct: Sized {
     fn serialize_field<T: ?Sized + Serialize>(&mut self, key: &'static str, value: &T) -> (r: Result<(), Self::Error>)
         requires old(self).st_ok() ensures Self::st_field_post(*old(self), *final(self), key, r);
     fn end(self) -> (r: Result<Self::Ok, Self::Error>) requires self.st_ok() ensures Self::st_end_post(self, r);
+}
+pub trait SerializeMap: Sized {
+    type Ok;
+    type Error;
+    spec fn map_ok(&self) -> bool;
+    spec fn map_step_post(pre: Self, post: Self) -> bool;
+    spec fn map_end_post(pre: Self, r: Result<Self::Ok, Self::Error>) -> bool;
+    fn serialize_key<T: ?Sized + Serialize>(&mut self, key: &T) -> (r: Result<(), Self::Error>)
+        requires old(self).map_ok() ensures Self::map_step_post(*old(self), *final(self));
+    fn serialize_value<T: ?Sized + Serialize>(&mut self, value: &T) -> (r: Result<(), Self::Error>)
+        requires old(self).map_ok() ensures Self::map_step_post(*old(self), *final(self));
+    fn serialize_entry<K: ?Sized + Serialize, V: ?Sized + Serialize>(&mut self, key: &K, value: &V) -> (r: Result<(), Self::Error>)
+        requires old(self).map_ok() ensures Self::map_step_post(*old(self), *final(self));
+    fn end(self) -> (r: Result<Self::Ok, Self::Error>) requires self.map_ok() ensures Self::map_end_post(self, r);
 }
 pub trait SerializeTupleVariant: Sized {
     type Ok;
@@ -599,6 +616,30 @@ impl<'w, 'i, W: Write> ContentSerializer<'w, 'i, W> {
     pub write_indent: bool,
 }
 //@end
+//@extract element::Map | src/se/element.rs :: struct Map | serves=C13 features=serialize
+ pub struct Map<'w, 'k, W: Write> {
+    pub ser: Struct<'w, 'k, W>,
+    /// Key, serialized by `QNameSerializer` if consumer uses `serialize_key` +
+    /// `serialize_value` calls instead of `serialize_entry`
+    pub key: Option<String>,
+}
+//@end
+//@extract key::QNameSerializer | src/se/key.rs :: struct QNameSerializer | serves=C13 features=serialize
+ pub struct QNameSerializer<W: Write> {
+    /// Writer to which this serializer writes content
+    pub writer: W,
+}
+//@end
+/// QNameSerializer's methods are not under contract (model-level implementation: every method unspecified); whatever
+/// string it yields as a map key is validated by Struct::write_field before it becomes a name
+impl<W: Write> Serializer for QNameSerializer<W> {
+    type Ok = W;
+    type Error = SeError;
+    type SerializeSeq = ();
+    type SerializeStruct = ();
+    type SerializeMap = ();
+    open spec fn ok(&self) -> bool { true }
+}
 //@extract text::TextSerializer | src/se/text.rs :: struct TextSerializer | serves=C13 features=serialize
  pub struct TextSerializer<W: Write>(pub SimpleTypeSerializer<W>);
 //@end
@@ -608,6 +649,7 @@ impl<W: Write> Serializer for TextSerializer<W> {
     type Error = SeError;
     type SerializeSeq = ();
     type SerializeStruct = ();
+    type SerializeMap = ();
     open spec fn ok(&self) -> bool { true }
 }
 //@extract element::Tuple | src/se/element.rs :: enum Tuple | serves=C19 features=serialize
@@ -645,6 +687,7 @@ impl<'w, W: Write> Serializer for SimpleTypeSerializer<&'w mut W> {
     type Error = SeError;
     type SerializeSeq = SimpleSeq<&'w mut W>;
     type SerializeStruct = ();
+    type SerializeMap = ();
     open spec fn ok(&self) -> bool { true }
 //@extract simple_type::SimpleTypeSerializer::serialize_str | src/se/simple_type.rs :: impl<W: Write> Serializer for SimpleTypeSerializer<W> :: fn serialize_str | serves=C13 features=serialize
     fn serialize_str(self, value: &str) -> (r: Result<Self::Ok, Self::Error>)
@@ -699,7 +742,8 @@ impl<'w, 'i, W: Write> Serializer for ContentSerializer<'w, 'i, W> {
     type Error = SeError;
     type SerializeSeq = Seq<'w, 'i, W>;
     type SerializeStruct = ();
-    closed spec fn ok(&self) -> bool { ind_ok(self.indent) }
+    type SerializeMap = ();
+    open spec fn ok(&self) -> bool { ind_ok(self.indent) }
 //@extract content::ContentSerializer::serialize_str | src/se/content.rs :: impl<'w, 'i, W: Write> Serializer for ContentSerializer<'w, 'i, W> :: fn serialize_str | serves=C13,C19 features=serialize
     fn serialize_str(self, value: &str) -> (r: Result<Self::Ok, Self::Error>)
         ensures
@@ -781,14 +825,14 @@ impl<'w, 'i, W: Write> Serializer for ContentSerializer<'w, 'i, W> {
 impl<'w, 'i, W: Write> SerializeSeq for Seq<'w, 'i, W> {
     type Ok = WriteResult;
     type Error = SeError;
-    closed spec fn seq_ok(&self) -> bool { ind_ok(self.ser.indent) }
+    open spec fn seq_ok(&self) -> bool { ind_ok(self.ser.indent) }
     /// C19: the indent flag for the NEXT item is set exactly when this item was markup or nothing -- never after text
-    closed spec fn seq_elem_post(pre: Self, post: Self, r: Result<(), SeError>) -> bool {
+    open spec fn seq_elem_post(pre: Self, post: Self, r: Result<(), SeError>) -> bool {
         &&& r is Ok ==> post.ser.write_indent == (post.last is Element || post.last is Nothing)
         &&& post.ser.level == pre.ser.level && post.ser.expand_empty_elements == pre.ser.expand_empty_elements
     }
     /// C19: a sequence is classified as its last item
-    closed spec fn seq_end_post(pre: Self, r: Result<WriteResult, SeError>) -> bool { r matches Ok(x) && x == pre.last }
+    open spec fn seq_end_post(pre: Self, r: Result<WriteResult, SeError>) -> bool { r matches Ok(x) && x == pre.last }
 //@extract content::Seq::serialize_element | src/se/content.rs :: impl<'w, 'i, W: Write> SerializeSeq for Seq<'w, 'i, W> :: fn serialize_element | serves=C19 features=serialize
     fn serialize_element<T>(&mut self, value: &T) -> Result<(), Self::Error>
     where
@@ -812,8 +856,9 @@ impl<'w, 'k, W: Write> Serializer for ElementSerializer<'w, 'k, W> {
     type Error = SeError;
     type SerializeSeq = Self;
     type SerializeStruct = Struct<'w, 'k, W>;
+    type SerializeMap = Map<'w, 'k, W>;
     /// the tag name was validated when the serializer was made (XmlName::try_from)
-    closed spec fn ok(&self) -> bool { ind_ok(self.ser.indent) && is_xml_name(self.key.0@) }
+    open spec fn ok(&self) -> bool { ind_ok(self.ser.indent) && is_xml_name(self.key.0@) }
 //@extract element::ElementSerializer::serialize_str | src/se/element.rs :: impl<'w, 'k, W: Write> Serializer for ElementSerializer<'w, 'k, W> :: fn serialize_str | serves=C13 features=serialize
     fn serialize_str(self, value: &str) -> (r: Result<Self::Ok, Self::Error>)
         ensures r matches Ok(x) ==> x is Element,
@@ -887,6 +932,17 @@ impl<'w, 'k, W: Write> Serializer for ElementSerializer<'w, 'k, W> {
         }
     }
 //@end
+//@extract element::ElementSerializer::serialize_map | src/se/element.rs :: impl<'w, 'k, W: Write> Serializer for ElementSerializer<'w, 'k, W> :: fn serialize_map | serves=C13 features=serialize
+    fn serialize_map(self, _len: Option<usize>) -> (r: Result<Self::SerializeMap, Self::Error>)
+        // a map is a struct whose field names are computed: the same open tag, no pending key
+        ensures r matches Ok(m) ==> m.key is None && m.ser.ser.key == self.key && m.ser.children@.len() == 0 && m.ser.write_indent,
+    {
+        Ok(Map {
+            ser: self.serialize_struct("", 0)?,
+            key: None,
+        })
+    }
+//@end
 //@extract element::ElementSerializer::serialize_struct | src/se/element.rs :: impl<'w, 'k, W: Write> Serializer for ElementSerializer<'w, 'k, W> :: fn serialize_struct | serves=C13,C19 features=serialize
     fn serialize_struct(
         self,
@@ -934,7 +990,7 @@ impl<'w, W: Write> SimpleTypeSerializer<&'w mut W> {
 //@rewrite Result<Self::Ok, SeError> ==> Result<&'w mut W, SeError>
     /// We cannot store both a variant discriminant and a variant value,
     /// so serialization of enum newtype variant returns `Err(Unsupported)`
-    fn serialize_newtype_variant<T: ?Sized + Serialize>(
+    pub fn serialize_newtype_variant<T: ?Sized + Serialize>(
         self,
         name: &'static str,
         _variant_index: u32,
@@ -953,7 +1009,7 @@ impl<'w, W: Write> SimpleTypeSerializer<&'w mut W> {
 impl<'w, 'i, W: Write> ContentSerializer<'w, 'i, W> {
 //@extract content::ContentSerializer::serialize_some | src/se/content.rs :: impl<'w, 'i, W: Write> Serializer for ContentSerializer<'w, 'i, W> :: fn serialize_some | serves=C19 features=serialize
 //@rewrite Result<Self::Ok, Self::Error> ==> Result<WriteResult, SeError>
-    fn serialize_some<T: ?Sized + Serialize>(self, value: &T) -> (r: Result<WriteResult, SeError>)
+    pub fn serialize_some<T: ?Sized + Serialize>(self, value: &T) -> (r: Result<WriteResult, SeError>)
         requires self.ok()
     {
         value.serialize(self)
@@ -961,7 +1017,7 @@ impl<'w, 'i, W: Write> ContentSerializer<'w, 'i, W> {
 //@end
 //@extract content::ContentSerializer::serialize_newtype_struct | src/se/content.rs :: impl<'w, 'i, W: Write> Serializer for ContentSerializer<'w, 'i, W> :: fn serialize_newtype_struct | serves=C19 features=serialize
 //@rewrite Result<Self::Ok, Self::Error> ==> Result<WriteResult, SeError>
-    fn serialize_newtype_struct<T: ?Sized + Serialize>(
+    pub fn serialize_newtype_struct<T: ?Sized + Serialize>(
         self,
         _name: &'static str,
         value: &T,
@@ -976,7 +1032,7 @@ impl<'w, 'i, W: Write> ContentSerializer<'w, 'i, W> {
     /// If `variant` is a special `$text` variant, then writes `value` as a `xs:simpleType`,
     /// otherwise checks `variant` for XML name validity and writes `value` as a new
     /// `<variant>` element.
-    fn serialize_newtype_variant<T: ?Sized + Serialize>(
+    pub fn serialize_newtype_variant<T: ?Sized + Serialize>(
         self,
         _name: &'static str,
         _variant_index: u32,
@@ -1006,7 +1062,7 @@ impl<'w, 'i, W: Write> ContentSerializer<'w, 'i, W> {
 impl<'w, 'k, W: Write> ElementSerializer<'w, 'k, W> {
 //@extract element::ElementSerializer::serialize_some | src/se/element.rs :: impl<'w, 'k, W: Write> Serializer for ElementSerializer<'w, 'k, W> :: fn serialize_some | serves=C13 features=serialize
 //@rewrite Result<Self::Ok, Self::Error> ==> Result<WriteResult, SeError>
-    fn serialize_some<T: ?Sized + Serialize>(self, value: &T) -> (r: Result<WriteResult, SeError>)
+    pub fn serialize_some<T: ?Sized + Serialize>(self, value: &T) -> (r: Result<WriteResult, SeError>)
         requires self.ok()
     {
         value.serialize(self)
@@ -1014,7 +1070,7 @@ impl<'w, 'k, W: Write> ElementSerializer<'w, 'k, W> {
 //@end
 //@extract element::ElementSerializer::serialize_newtype_struct | src/se/element.rs :: impl<'w, 'k, W: Write> Serializer for ElementSerializer<'w, 'k, W> :: fn serialize_newtype_struct | serves=C13 features=serialize
 //@rewrite Result<Self::Ok, Self::Error> ==> Result<WriteResult, SeError>
-    fn serialize_newtype_struct<T: ?Sized + Serialize>(
+    pub fn serialize_newtype_struct<T: ?Sized + Serialize>(
         self,
         _name: &'static str,
         value: &T,
@@ -1026,7 +1082,7 @@ impl<'w, 'k, W: Write> ElementSerializer<'w, 'k, W> {
 //@end
 //@extract element::ElementSerializer::serialize_newtype_variant | src/se/element.rs :: impl<'w, 'k, W: Write> Serializer for ElementSerializer<'w, 'k, W> :: fn serialize_newtype_variant | serves=C13 features=serialize n15=1
 //@rewrite Result<Self::Ok, Self::Error> ==> Result<WriteResult, SeError>
-    fn serialize_newtype_variant<T: ?Sized + Serialize>(
+    pub fn serialize_newtype_variant<T: ?Sized + Serialize>(
         self,
         name: &'static str,
         _variant_index: u32,
@@ -1118,6 +1174,7 @@ impl<'a, W: Write> Serializer for AtomicSerializer<&'a mut W> {
     type Error = SeError;
     type SerializeSeq = ();
     type SerializeStruct = ();
+    type SerializeMap = ();
     open spec fn ok(&self) -> bool { true }
 //@extract simple_type::AtomicSerializer::serialize_str | src/se/simple_type.rs :: impl<W: Write> Serializer for AtomicSerializer<W> :: fn serialize_str | serves=C13 features=serialize
     fn serialize_str(self, value: &str) -> (r: Result<Self::Ok, Self::Error>)
@@ -1187,13 +1244,13 @@ impl<'a, W: Write> Serializer for AtomicSerializer<&'a mut W> {
 impl<'w, 'k, W: Write> SerializeSeq for ElementSerializer<'w, 'k, W> {
     type Ok = WriteResult;
     type Error = SeError;
-    closed spec fn seq_ok(&self) -> bool { ind_ok(self.ser.indent) && is_xml_name(self.key.0@) }
+    open spec fn seq_ok(&self) -> bool { ind_ok(self.ser.indent) && is_xml_name(self.key.0@) }
     /// C19: each item is an element `<key>..</key>`: markup, so the next item is indented; C13: same validated name
-    closed spec fn seq_elem_post(pre: Self, post: Self, r: Result<(), SeError>) -> bool {
+    open spec fn seq_elem_post(pre: Self, post: Self, r: Result<(), SeError>) -> bool {
         &&& r is Ok ==> post.ser.write_indent
         &&& post.key == pre.key && post.ser.level == pre.ser.level && post.ser.expand_empty_elements == pre.ser.expand_empty_elements
     }
-    closed spec fn seq_end_post(pre: Self, r: Result<WriteResult, SeError>) -> bool { r matches Ok(x) && x is Element }
+    open spec fn seq_end_post(pre: Self, r: Result<WriteResult, SeError>) -> bool { r matches Ok(x) && x is Element }
 //@extract element::ElementSerializer::seq_serialize_element | src/se/element.rs :: impl<'w, 'k, W: Write> SerializeSeq for ElementSerializer<'w, 'k, W> :: fn serialize_element | serves=C13,C19 features=serialize
     fn serialize_element<T>(&mut self, value: &T) -> Result<(), Self::Error>
     where
@@ -1217,12 +1274,12 @@ impl<'w, 'k, W: Write> SerializeSeq for ElementSerializer<'w, 'k, W> {
 impl<'w, 'k, W: Write> SerializeTuple for ElementSerializer<'w, 'k, W> {
     type Ok = WriteResult;
     type Error = SeError;
-    closed spec fn tup_ok(&self) -> bool { ind_ok(self.ser.indent) && is_xml_name(self.key.0@) }
-    closed spec fn tup_elem_post(pre: Self, post: Self, r: Result<(), SeError>) -> bool {
+    open spec fn tup_ok(&self) -> bool { ind_ok(self.ser.indent) && is_xml_name(self.key.0@) }
+    open spec fn tup_elem_post(pre: Self, post: Self, r: Result<(), SeError>) -> bool {
         &&& r is Ok ==> post.ser.write_indent
         &&& post.key == pre.key && post.ser.level == pre.ser.level && post.ser.expand_empty_elements == pre.ser.expand_empty_elements
     }
-    closed spec fn tup_end_post(pre: Self, r: Result<WriteResult, SeError>) -> bool { r matches Ok(x) && x is Element }
+    open spec fn tup_end_post(pre: Self, r: Result<WriteResult, SeError>) -> bool { r matches Ok(x) && x is Element }
 //@extract element::ElementSerializer::tuple_serialize_element | src/se/element.rs :: impl<'w, 'k, W: Write> SerializeTuple for ElementSerializer<'w, 'k, W> :: fn serialize_element | serves=C13,C19 features=serialize
     fn serialize_element<T>(&mut self, value: &T) -> Result<(), Self::Error>
     where
@@ -1240,13 +1297,13 @@ impl<'w, 'k, W: Write> SerializeTuple for ElementSerializer<'w, 'k, W> {
 impl<'w, 'k, W: Write> SerializeTupleVariant for Tuple<'w, 'k, W> {
     type Ok = WriteResult;
     type Error = SeError;
-    closed spec fn tv_ok(&self) -> bool { self matches Tuple::Element(e) ==> ind_ok(e.ser.indent) && is_xml_name(e.key.0@) }
-    closed spec fn tv_field_post(pre: Self, post: Self, r: Result<(), SeError>) -> bool {
+    open spec fn tv_ok(&self) -> bool { self matches Tuple::Element(e) ==> ind_ok(e.ser.indent) && is_xml_name(e.key.0@) }
+    open spec fn tv_field_post(pre: Self, post: Self, r: Result<(), SeError>) -> bool {
         (pre is Element) == (post is Element)
     }
     /// C19: a tuple variant written as elements is markup; written as `$text` (an xs:list) it is text in which
     /// whitespace counts: no indent may follow it
-    closed spec fn tv_end_post(pre: Self, r: Result<WriteResult, SeError>) -> bool {
+    open spec fn tv_end_post(pre: Self, r: Result<WriteResult, SeError>) -> bool {
         r matches Ok(x) ==> (pre is Element ==> x is Element) && (pre is Text ==> x is SensitiveText)
     }
 //@extract element::Tuple::serialize_field | src/se/element.rs :: impl<'w, 'k, W: Write> SerializeTupleVariant for Tuple<'w, 'k, W> :: fn serialize_field | serves=C19 features=serialize
@@ -1392,12 +1449,12 @@ impl<'w, 'k, W: Write> Struct<'w, 'k, W> {
 impl<'w, 'k, W: Write> SerializeStruct for Struct<'w, 'k, W> {
     type Ok = WriteResult;
     type Error = SeError;
-    closed spec fn st_ok(&self) -> bool { ind_ok(self.ser.ser.indent) && is_xml_name(self.ser.key.0@) }
+    open spec fn st_ok(&self) -> bool { ind_ok(self.ser.ser.indent) && is_xml_name(self.ser.key.0@) }
     /// C13: whatever fields are written, the tag that will be closed is the tag that was opened
-    closed spec fn st_field_post(pre: Self, post: Self, key: &'static str, r: Result<(), SeError>) -> bool {
+    open spec fn st_field_post(pre: Self, post: Self, key: &'static str, r: Result<(), SeError>) -> bool {
         post.ser.key == pre.ser.key && post.ser.ser.expand_empty_elements == pre.ser.ser.expand_empty_elements && post.ser.ser.level == pre.ser.ser.level
     }
-    closed spec fn st_end_post(pre: Self, r: Result<WriteResult, SeError>) -> bool { true }
+    open spec fn st_end_post(pre: Self, r: Result<WriteResult, SeError>) -> bool { true }
 //@extract element::Struct::serialize_field | src/se/element.rs :: impl<'w, 'k, W: Write> SerializeStruct for Struct<'w, 'k, W> :: fn serialize_field | serves=C13 features=serialize
     fn serialize_field<T>(&mut self, key: &'static str, value: &T) -> Result<(), Self::Error>
     where
@@ -1452,6 +1509,77 @@ impl<'w, 'k, W: Write> SerializeStruct for Struct<'w, 'k, W> {
             }
         }
         Ok(WriteResult::Element)
+    }
+//@end
+}
+
+// ---- maps: entries are struct fields whose names are computed; every key goes through Struct::write_field ----
+impl<'w, 'k, W: Write> Map<'w, 'k, W> {
+//@extract element::Map::make_key | src/se/element.rs :: impl<'w, 'k, W: Write> Map<'w, 'k, W> :: fn make_key | serves=C13 features=serialize
+    fn make_key<T>(&mut self, key: &T) -> (r: Result<String, SeError>)
+    where
+        T: ?Sized + Serialize,
+        // the key is serialized into a string of its own: the map is not touched
+        ensures *final(self) == *old(self),
+    {
+        key.serialize(QNameSerializer {
+            writer: String::new(),
+        })
+    }
+//@end
+}
+impl<'w, 'k, W: Write> SerializeMap for Map<'w, 'k, W> {
+    type Ok = WriteResult;
+    type Error = SeError;
+    open spec fn map_ok(&self) -> bool { self.ser.st_ok() }
+    /// C13: whatever entries are written, the tag that will be closed is the tag that was opened
+    open spec fn map_step_post(pre: Self, post: Self) -> bool {
+        post.ser.ser.key == pre.ser.ser.key && post.ser.ser.ser.expand_empty_elements == pre.ser.ser.ser.expand_empty_elements && post.ser.ser.ser.level == pre.ser.ser.ser.level
+    }
+    open spec fn map_end_post(pre: Self, r: Result<WriteResult, SeError>) -> bool { r matches Ok(x) ==> x is Element && pre.key is None }
+//@extract element::Map::serialize_key | src/se/element.rs :: impl<'w, 'k, W: Write> SerializeMap for Map<'w, 'k, W> :: fn serialize_key | serves=C13 features=serialize n15=1
+    fn serialize_key<T>(&mut self, key: &T) -> Result<(), Self::Error>
+    where
+        T: ?Sized + Serialize,
+    {
+        if let Some(_) = self.key.take() {
+            return Err(SeError::Custom(
+                errstr_(),
+            ));
+        }
+        self.key = Some(self.make_key(key)?);
+        Ok(())
+    }
+//@end
+//@extract element::Map::serialize_value | src/se/element.rs :: impl<'w, 'k, W: Write> SerializeMap for Map<'w, 'k, W> :: fn serialize_value | serves=C13 features=serialize n15=1
+    fn serialize_value<T>(&mut self, value: &T) -> Result<(), Self::Error>
+    where
+        T: ?Sized + Serialize,
+    {
+        if let Some(key) = self.key.take() {
+            return self.ser.write_field(&key, value);
+        }
+        Err(SeError::Custom(
+            errstr_(),
+        ))
+    }
+//@end
+//@extract element::Map::serialize_entry | src/se/element.rs :: impl<'w, 'k, W: Write> SerializeMap for Map<'w, 'k, W> :: fn serialize_entry | serves=C13 features=serialize
+    fn serialize_entry<K, V>(&mut self, key: &K, value: &V) -> Result<(), Self::Error>
+    where
+        K: ?Sized + Serialize,
+        V: ?Sized + Serialize,
+    {
+        let key = self.make_key(key)?;
+        self.ser.write_field(&key, value)
+    }
+//@end
+//@extract element::Map::end | src/se/element.rs :: impl<'w, 'k, W: Write> SerializeMap for Map<'w, 'k, W> :: fn end | serves=C13 features=serialize n15=1
+    fn end(self) -> Result<Self::Ok, Self::Error> { let mut self__ = self;
+        if let Some(key) = self__.key.take() {
+            return Err(SeError::Custom(errstr_()));
+        }
+        SerializeStruct::end(self__.ser)
     }
 //@end
 }
